@@ -331,9 +331,17 @@ class _Writes:
       self.scan(callee, q, depth - 1, via=f" -> {callee.name}({q})")
 
 
-def _attr_writes(M, attr, skip_self_in=()):
-  """Writes through `<expr>.<attr>` anywhere in the module."""
+def _attr_writes(M, attr, class_only=None):
+  """Writes through `<expr>.<attr>` anywhere in the module.  With `class_only`
+  (a class whose __init__ gives every instance its own attribute of that
+  name) only accesses through the class itself count: `cls.<attr>`,
+  `<Class>.<attr>`, `type(x).<attr>`."""
   out = []
+
+  def through_class(e):
+    if isinstance(e, ast.Name):
+      return e.id in ("cls", class_only)
+    return isinstance(e, ast.Call) and dotted(e.func) == "type"
   parent = M.parent
   for n in ast.walk(M.mod.tree):
     if not (isinstance(n, ast.Attribute) and n.attr == attr and isinstance(n.ctx, ast.Load)):
@@ -343,7 +351,7 @@ def _attr_writes(M, attr, skip_self_in=()):
     where = fn.name if fn is not None else "<module>"
     if fn is None:
       continue  # import-time initialisation of a table
-    if isinstance(n.value, ast.Name) and n.value.id == "self" and fn in skip_self_in:
+    if class_only is not None and not through_class(n.value):
       continue
     if isinstance(p, ast.Attribute) and p.value is n:
       gp = parent.get(p)
@@ -358,7 +366,8 @@ def _attr_writes(M, attr, skip_self_in=()):
       pass  # ctx would be Store
   for n in ast.walk(M.mod.tree):
     if isinstance(n, ast.AugAssign) and isinstance(n.target, ast.Attribute) \
-        and n.target.attr == attr and M.mod.enclosing_function(n) is not None:
+        and n.target.attr == attr and M.mod.enclosing_function(n) is not None \
+        and (class_only is None or through_class(n.target.value)):
       out.append((n.lineno, f"{M.mod.enclosing_function(n).name}: `{src(n)[:80]}` changes it in place"))
   return out
 
@@ -469,8 +478,8 @@ def r16_9(ctx):
               isinstance(a, ast.Attribute) and a.attr == name and isinstance(a.ctx, ast.Store)
               and isinstance(a.value, ast.Name) and a.value.id == "self"
               for a in ast.walk(f))]
-          skip = set(own_init) if any(f.name == "__init__" for f in shadowing) else set()
-          found = _attr_writes(M, name, skip_self_in=skip)
+          per_instance = any(f.name == "__init__" for f in shadowing)
+          found = _attr_writes(M, name, class_only=cnode.name if per_instance else None)
           construct = f"class:{stem}.{cnode.name}.{name}"
           if found:
             ctx.bad(construct, rel, st.lineno,
@@ -483,19 +492,98 @@ def r16_9(ctx):
             ctx.ok(construct, rel, st.lineno, {"value": src(value)[:80], "kind": kind,
                                                "written": False})
     ctx.ok(f"class-level:{stem}", rel, 0, {"bindings": n_cls})
-    # (d) memoising decorators keep their arguments and results across calls
-    for q, fn, cls in M.funcs:
-      for dec in fn.decorator_list:
-        d = dotted(dec.func if isinstance(dec, ast.Call) else dec) or ""
-        if d.split(".")[-1] in ("lru_cache", "cache", "memoize", "cached_property"):
-          streamy = [p for p in _param_names(fn) if p not in ("self", "cls")]
-          if streamy and stem != "cfg_utils":
-            raise AnalysisError(
-                f"{rel}: {q} is memoised ({d}); whether its cache can serve a "
-                "stale result for another code object is not decided")
 
+
+OPC, BLOCKS = FILES[0], FILES[1]
+_SETUP_SIG = ("def _add_setup_except(\n"
+              "    offset_to_op: dict[float, Opcode], exc_table: pycnite.types.ExceptionTable\n"
+              "):\n")
+_SEEN_LOCAL = "  seen_lines = set()\n  exception_ranges = {}\n"
+_BLOCK_INIT = "  def __init__(self, code: list[opcodes.Opcode]):\n    self.id = code[0].index\n"
 
 VARIANTS = [
     {"name": "seeded-C16-r3m2", "rule": "R16.9", "patch": "seeded/C16-r3m2/patch.diff",
      "expect": "fire"},
+    # other containers that outlive a call and are written by a pass
+    {"name": "seen-lines-kept-in-module-level-set", "rule": "R16.9", "expect": "fire",
+     "edits": [(OPC, _SETUP_SIG, "_SEEN_LINES = set()\n\n\n" + _SETUP_SIG),
+               (OPC, _SEEN_LOCAL, "  seen_lines = _SEEN_LINES\n  exception_ranges = {}\n")]},
+    {"name": "processed-blocks-as-default-argument", "rule": "R16.9", "expect": "fire",
+     "edits": [(BLOCKS, "    bytecode: list[opcodes.Opcode], python_version\n) -> list[Block]:\n",
+                "    bytecode: list[opcodes.Opcode], python_version, processed_blocks=set()\n"
+                ") -> list[Block]:\n"),
+               (BLOCKS, "  processed_blocks = set()\n", "")]},
+    {"name": "offset-map-as-default-dict", "rule": "R16.9", "expect": "fire",
+     "edits": [(OPC, "def _make_opcode_list(offset_to_op, python_version: tuple[int, int]):\n",
+                "def _make_opcode_list(offset_to_op, python_version: tuple[int, int],\n"
+                "                      offset_to_index={}):\n"),
+               (OPC, "  ops = []\n  offset_to_index = {}\n", "  ops = []\n")]},
+    {"name": "incoming-edges-as-class-level-set", "rule": "R16.9", "expect": "fire",
+     "edits": [(BLOCKS, _BLOCK_INIT, "  incoming: set = set()\n\n" + _BLOCK_INIT),
+               (BLOCKS, "    self.incoming: set[Self] = set()\n", "")]},
+    {"name": "visited-set-rebound-through-global", "rule": "R16.9", "expect": "fire",
+     "edits": [(BLOCKS, "def add_pop_block_targets(bytecode: list[opcodes.Opcode]) -> None:\n",
+                "_SEEN = None\n\n\n"
+                "def add_pop_block_targets(bytecode: list[opcodes.Opcode]) -> None:\n"),
+               (BLOCKS, "  seen = set()\n  while todo:\n",
+                "  global _SEEN\n  if _SEEN is None:\n    _SEEN = set()\n"
+                "  seen = _SEEN\n  while todo:\n")]},
+    # per-call state spelled differently; shared tables that are only read
+    {"name": "twin-seen-lines-none-default-created-per-call", "rule": "R16.9", "expect": "silent",
+     "edits": [(OPC, _SETUP_SIG,
+                "def _add_setup_except(\n"
+                "    offset_to_op: dict[float, Opcode], exc_table: pycnite.types.ExceptionTable,\n"
+                "    seen_lines=None,\n):\n"),
+               (OPC, _SEEN_LOCAL, "  if seen_lines is None:\n    seen_lines = set()\n"
+                "  exception_ranges = {}\n")]},
+    {"name": "twin-frozenset-default-read-only", "rule": "R16.9", "expect": "silent",
+     "edits": [(OPC, _SETUP_SIG,
+                "def _add_setup_except(\n"
+                "    offset_to_op: dict[float, Opcode], exc_table: pycnite.types.ExceptionTable,\n"
+                "    skip_lines=frozenset(),\n):\n"),
+               (OPC, "    if not e.lasti and line not in seen_lines:\n",
+                "    if not e.lasti and line not in seen_lines and line not in skip_lines:\n")]},
+    {"name": "twin-mutable-default-only-read", "rule": "R16.9", "expect": "silent",
+     "edits": [(OPC, "def _get_exception_bitmask(offset_to_op, exception_ranges):\n",
+                "def _get_exception_bitmask(offset_to_op, exception_ranges, extra_ranges={}):\n"),
+               (OPC, "    if i in exception_ranges:\n      in_exception += pos\n",
+                "    if i in exception_ranges or i in extra_ranges:\n      in_exception += pos\n")]},
+    {"name": "twin-class-level-default-shadowed-per-instance", "rule": "R16.9", "expect": "silent",
+     "edits": [(BLOCKS, _BLOCK_INIT, "  incoming: set = set()\n\n" + _BLOCK_INIT)]},
+    {"name": "twin-module-level-table-as-list-only-read", "rule": "R16.9", "expect": "silent",
+     "edits": [(BLOCKS, "_NOOP_OPCODES = (opcodes.NOP, opcodes.PRECALL, opcodes.RESUME)\n",
+                "_NOOP_OPCODE_LIST = [opcodes.NOP, opcodes.PRECALL, opcodes.RESUME]\n"
+                "_NOOP_OPCODES = tuple(_NOOP_OPCODE_LIST)\n")]},
+    # a shared container handed to code that is not followed: not decided
+    {"name": "shared-list-handed-to-foreign-constructor", "rule": "R16.9", "expect": "error",
+     "edits": [(BLOCKS, "def _order_code(dis_code: pycnite.types.DisassembledCode) -> OrderedCode:\n",
+                "def _order_code(dis_code: pycnite.types.DisassembledCode, extra_blocks=[]) -> OrderedCode:\n"),
+               (BLOCKS, "  return OrderedCode(dis_code.code, ops, blocks)\n",
+                "  return pyc_bytecode.Ordered(dis_code.code, ops, blocks, extra_blocks)\n")]},
+    # the refactoring of the seeded change without its defect
+    {"name": "twin-exception-blocks-helper-with-local-set", "rule": "R16.9", "expect": "silent",
+     "edits": [(OPC, _SETUP_SIG,
+                "def _add_exception_blocks(offset_to_op, entries):\n"
+                "  seen_lines = set()\n  exception_ranges = {}\n"
+                "  for e in entries:\n"
+                "    if isinstance(offset_to_op[e.target], _IGNORED_EXCEPTION_TARGETS):\n"
+                "      continue\n"
+                "    line = offset_to_op[e.start].line\n"
+                "    if not e.lasti and line not in seen_lines:\n"
+                "      seen_lines.add(line)\n"
+                "      _add_exception_block(offset_to_op, e)\n"
+                "      exception_ranges[e.start] = e.end\n"
+                "  return exception_ranges\n\n\n" + _SETUP_SIG),
+               (OPC, _SEEN_LOCAL + "  for e in exc_table.entries:\n"
+                "    if isinstance(offset_to_op[e.target], _IGNORED_EXCEPTION_TARGETS):\n"
+                "      # This entry corresponds to an `async for` block.\n"
+                "      continue\n"
+                "    line = offset_to_op[e.start].line\n"
+                "    if not e.lasti and line not in seen_lines:\n"
+                "      seen_lines.add(line)\n"
+                "      # Entries corresponding to a `with` block have `lasti` set, while the\n"
+                "      # first entry for an exception block does not. So this is an exception.\n"
+                "      _add_exception_block(offset_to_op, e)\n"
+                "      exception_ranges[e.start] = e.end\n",
+                "  exception_ranges = _add_exception_blocks(offset_to_op, exc_table.entries)\n")]},
 ]
